@@ -14,7 +14,7 @@ fn exec(line: &str, model: &mut Model) -> Option<Exec> {
         return p_hex::exec(line);
     }
     match op {
-        "enc" | "dec" | "spec.enc" | "spec.dec" | "crcok" | "crc16" | "crc32" => p_codec::exec(line, model),
+        "enc" | "dec" | "spec.enc" | "spec.dec" | "crcok" | "crc16" | "crc32" | "json.enc" => p_codec::exec(line, model),
         _ if op.starts_with("eid.") || op.starts_with("time.") || op.starts_with("adm.") || op == "ts.string" => p_misc::exec(line, model),
         "validate" | "id" | "idpair" | "info" | "upd" | "seq" => p_misc::exec(line, model),
         "rx" | "fault" | "cor" => p_rx::exec(line, model),
@@ -92,7 +92,7 @@ fn main() {
         }
         match prop.as_str() {
             "C18" => p_hex::generate(&mut ctx, &mut rep, &mut emit),
-            "C01" | "C02" | "C03" | "C04" => p_codec::generate(&prop, &mut ctx, &mut rep, &mut emit),
+            "C01" | "C02" | "C03" | "C04" | "C15" => p_codec::generate(&prop, &mut ctx, &mut rep, &mut emit),
             "C05" | "C06" | "C19" => p_rx::generate(&prop, &mut ctx, &mut rep, &mut emit),
             "C07" | "C08" | "C10" | "C11" | "C12" | "C13" | "C17" => p_misc::generate(&prop, &mut ctx, &mut rep, &mut emit),
             _ => { eprintln!("unknown property {}", prop); std::process::exit(2); }
